@@ -1368,6 +1368,26 @@ class Interp:
                 # folding a constant pattern over a constant string
                 r = getattr(_re.compile(base.pattern, base.flags), attr)(*args)
                 return list(r) if attr == "finditer" else r
+            # a constant pattern applied to an abstract text: the result is an abstract value derived from it
+            subj = args[1] if attr in ("sub", "subn") and len(args) > 1 else (args[0] if args else None)
+            if isinstance(subj, Sym | SymStr):
+                def _derived(kind):
+                    d = Sym(f"re.{attr}({getattr(subj, 'name', 'symstr')})", truthy=None, pytype=str, tags=tuple(getattr(subj, "tags", ())) + ("derived", kind))
+                    d.attrs["derived_from"] = subj
+                    return d
+                if attr in ("sub", "subn"):
+                    return _derived("regex-sub") if attr == "sub" else (_derived("regex-sub"), Sym("n", pytype=int))
+                if attr in ("search", "match", "fullmatch"):
+                    hook = self.hooks.get("re:predicate")
+                    if hook is not None:
+                        return hook(self, attr, base, subj, node)
+                    k = subj.uid if isinstance(subj, Sym) else subj.text()
+                    if self.decide((f"re.{attr}", base.pattern, k)):
+                        return Sym("MATCH", truthy=True, attrs={"group": lambda i, a, kk, n: _derived("regex-group"), "start": lambda i, a, kk, n: Sym("pos", pytype=int),
+                                                                 "end": lambda i, a, kk, n: Sym("pos", pytype=int), "groups": lambda i, a, kk, n: (_derived("regex-group"),)})
+                    return None
+                if attr in ("findall", "split", "finditer"):
+                    return [_derived("regex-part")]
             self.unsupported(node, f"regex method {attr} without hook")
         if isinstance(base, _re.Match):
             return getattr(base, attr)(*args, **kwargs)
